@@ -81,6 +81,9 @@ def gen(tier, seed, shard, nshards):
     for k in range(n["weighted"] // 3):
         if k % nshards == shard:
             yield "weighted", {"W": _gc.near_chain(("C07", seed, "nc", k))}
+    for k in range(n["weighted"] // 4):
+        if k % nshards == shard:
+            yield "library-chain-edited", {"k": k, "seed": seed}
 
 
 def _check_all_dags(U, out, family, case, rec, key):
@@ -268,6 +271,10 @@ def judge(family, case, rec):
             if diff:
                 rec.violation("C07:mec-chain-%s-%s" % ("shortcut" if cc else "general", diff["kind"]), family, case,
                               "mec(chain p=%d, check_chain=%s): %d graphs, expected %d" % (p, cc, len(lst), p), **diff)
+    elif family == "library-chain-edited":
+        A = _gc.library_chain_edited(U, ("C07lc", case["seed"], case["k"]))
+        rec.count("graphs-built-from-library-chain_graph")
+        _check_mec(U, gmat.masks(A), family, case, rec, None, A=A, chain_variants=(True, False))
     elif family == "weighted":
         W = case["W"]
         out = gmat.masks(W)
